@@ -106,6 +106,8 @@ class C11(Check):
                     "Python ideal-bridge oracle (harness/c11.py oracle_ex) written independently of the model"]
     assumptions = ["control channel processed to quiescence between data-plane arrivals (single-threaded cooperative POX; the harness pumps the byte pipes)",
                    "flood hold-down _flood_delay = 0 (the module default); ports up, no NO_FLOOD/NO_FWD port config; flow table not full",
+                   "bursts (several packet-ins in one controller read) are checked against the ideal-bridge oracle only, not against the model or theorems",
+                   "an exception escaping rx_packet / the control channel is recorded as an observable of that arrival (model disagreement), other harness errors are broken ties",
                    "network-wide no-duplicates (no switch port sees one frame twice when the links form a forest) is checked by the oracle, not proved",
                    "network theorems are per hop; that a frame reaches its destination host across a loop-free topology (end-to-end delivery) is not stated",
                    "frames are untagged Ethernet II whose ofp_match.from_packet is determined by (src,dst,ethertype,key); port numbers < OFPP_MAX"]
@@ -113,7 +115,12 @@ class C11(Check):
             "broadcast, IP multicast, STP/LLDP/pause destinations; host moves; frames longer than miss_send_len), clock advances around the 10 s/30 s timeouts, sweeps); "
             "corpus = ALL length-4 sequences over a 9-letter (quick) / 12-letter (thorough) alphabet for pools of 0 and 1 (and 2) buffers + hand-written seeds incl. the "
             "defect witness and keep-alive histories (a flow refreshed past its hard timeout while the destination moves, sweep before every frame); random "
-            "histories to length 200, one in five from the keep-alive family; the oracle keeps the SPECIFIED flow cache (10 s idle / 30 s hard, removed at "
+            "histories to length 200, one in five from the keep-alive family; HARDENING families: OpenFlow port numbers 255..257 / 32766.. / 0xfef1.. (a logical "
+            "port i is port base+i; half of the exhaustive corpus runs on 255..257), switches that share nothing but the controller component, transport "
+            "port 0/256/257/65535, the all-zero MAC, a group address as source, ethertype 0x0600, frames of exactly 128/129 bytes, rx_packet with and "
+            "without packet_data, same-port drop entries kept busy while the destination moves, BURSTS (several frames reach a switch before the control "
+            "channel moves: several packet-ins per read; oracle only, the model answers packet-ins one at a time); the three code variants (K1 relearn, "
+            "drop entry in_port, D26 exact ranking) are found by probing the running system, source shapes are a cross-check recorded in the evidence; the oracle keeps the SPECIFIED flow cache (10 s idle / 30 s hard, removed at "
             "the first sweep after a timeout) to judge 'no older cached flow is still installed'; non-trivial = the history has both a packet-in and a cached-flow hit, or four kinds of outcome")
 
     # ------------------------------------------------------------------ real system
